@@ -36,6 +36,10 @@ for sid in sorted(os.listdir(os.path.join(VERIF, "seeded"))):
     # only VIOLATION reports (not the KNOWN-FINDING lines, which also carry a signature= field)
     lines = [l for l in p.stdout.splitlines() if l.startswith("  signature=") or "violation signature not minimised:" in l]
     sigs = sorted(set(re.findall(r"signature(?: not minimised:|=)\s*([A-Za-z0-9_/=.+-]+)", "\n".join(lines))))
+    if os.environ.get("EVAL_NO_WRITE"):
+        # second opinion under another VERIF_SEED: report only
+        print(sid, "exit", p.returncode, sigs[:4], "(not recorded)")
+        continue
     meta["detected_by"] = {"check": prop, "tier": tier, "exit_code": p.returncode, "violation_signatures": sigs, "verif_commit": head}
     json.dump(meta, open(mp, "w"), indent=1)
     print(sid, "exit", p.returncode, sigs[:4])
